@@ -51,6 +51,10 @@ CHECKS = {
          "explicit-state search over operation histories on live runners; state = residue vector (descriptor classes, children, goroutines of the host process; descriptors and children of the container init; live program processes), compared with the baseline after every operation",
          "Operations: container runs of process trees (plain, signal-ignoring, double-forked daemon, setsid, setpgid, parent-outliving children, depth up to 3) ending by exit / fatal signal / cancellation with sync before and after exec; callbacks that fail, also after the program has built its tree (sync after exec); launches failing before and after the sync point; open ok / mixed / empty, delete, symlink, reset, ping; build+destroy of a second environment; ptrace and namespace runs of trees with the same endings; failing launches of both. Every single operation is run from the baseline state on a fresh environment, three long chains run all operations in different orders on one environment (thorough: every operation followed by each of eight representatives). After each operation the vector must return to the baseline (polled up to the horizon); every history ends with a Destroy that must return and reap the init.",
          "Because every operation returns to the baseline state, longer histories add no new states (the frontier closes at depth 1); chains and pairs are run anyway. Files left in the container's tmpfs are state, not residue (C13)."),
+ "C13": ("exploration",
+         "bounded-exhaustive enumeration of residue subsets x tmpfs mounts x credential mode x run/Reset histories on a real container (residue created by a real program), with the host view of every tmpfs as oracle; and of memfd sizes x patterns x reader behaviours x modification attempts by the holder and by a program exec'ed from the sealed file",
+         "Reset: every subset of <=2 (thorough: <=3) of 12 residue kinds (deep path, path longer than PATH_MAX, mode-000 directory with content, hidden names, dangling / host / self symlinks, FIFO, socket, hard links, 2000 entries, file held open by a surviving process, read-only directory, weird names) is created by the fsgen probe in all four tmpfs mounts (work dir, /tmp, a tmpfs nested in the work dir, a tmpfs with size options), with and without credential switching, in the histories run-Reset and run-run-Reset; afterwards each tmpfs must be empty seen through /proc/<init>/root and Reset must have returned nil. memfd: sizes {0,1,4095,4096,4097,65536,1 MiB+1} x {zero, 0xff, counter} x reader {whole, 1 byte, 7 bytes at a time}; a reader failing after 0/1/4096/70000 bytes must produce an error and leak nothing; content, offset 0 and all four seals are checked before and after write / pwrite / ftruncate / fallocate / shared writable mmap / F_ADD_SEALS / reopen for writing / reopen with O_TRUNC, by the holder and by a program exec'ed from the sealed file through the container (its own image and a second sealed descriptor).",
+         "Writable bind mounts are the caller's directories and are not expected to be emptied. The mount root's own mode/mtime is not an entry."),
  "C14": ("exploration",
          "bounded-exhaustive enumeration of Open / Symlink / Delete batches over item classes on a real container whose tmpfs is prepared from the host side with planted objects; per-index oracle (error iff the class must fail; returned descriptor identical to the object at that path, requested mode, close-on-exec) plus bounded return and protocol health",
          "Open: every batch of length 0..3 (thorough: 0..4) over 14 item classes: new file with and without MkdirAll, missing parent, existing regular file read-only / write+truncate / read-write, planted symlink to a regular file / to a host file / dangling with O_CREAT, FIFO opened for reading and for writing, socket, directory, MkdirAll blocked by a planted file; batches of 253, 254 and 300 new files. Symlink: every batch of length <=3 (4) over {new, existing path, missing parent}. Delete: file, empty directory, non-empty directory, missing path, planted symlink (the target must survive). The k-th result must be an error iff item k's class must fail, a returned file must have the (dev, ino) of the object at path k as seen through /proc/<init>/root, the requested access mode and close-on-exec; the call must return within the horizon; a following Ping must succeed; nothing may be created through a planted link.",
